@@ -70,7 +70,7 @@ def choose_files(wl, tier, cfg):
     covered = {}
 
     def feats(inp, recs):
-        f = set(l[:3] for l, _ in M.census(recs, cfg))
+        f = set(t[0][:3] for t in M.census(recs, cfg))
         text = inp['text']
         for het in ('MTX', 'KNI', ' ZN', ' CA', ' CL'):
             if ('HETATM' in text) and (het + ' ') in text:
@@ -216,11 +216,12 @@ def literal_failure(text, stem, delivery, options, expected_pairs, sc, suffix='.
     lines = set(text.splitlines())
     expected = None
     if not (expect_error or delivery == 'cli'):
-        gone = set(l for l, line in expected_pairs if line not in lines)
+        gone = set(p[0] for p in expected_pairs
+                   if p[1] not in lines or any(d not in lines for d in (p[2] if len(p) > 2 else [])))
         expected = []
-        for l, line in expected_pairs:
-            if l not in gone and l not in expected:
-                expected.append(l)
+        for p in expected_pairs:
+            if p[0] not in gone and p[0] not in expected:
+                expected.append(p[0])
     code = (
         'import json,sys\n'
         'from sim import c12_worker as W, c12_model as M\n'
@@ -281,25 +282,40 @@ def minimise(text, stem, delivery, options, expected_pairs, signature, sc, log, 
         return units
 
     lines = text.splitlines()
-    # residues = maximal runs of atom records with the same residue key
+    # Only ATOM/HETATM records are ever lost, so only they may be removed while
+    # minimising; TER/MODEL/ENDMDL lines are pinned (dropping a TER would turn a
+    # chain start into an ordinary residue and fake a missing N+).
+    # units = maximal runs of atom records with the same residue key
     units = []
     last = None
     for ln in lines:
         if ln[0:6] in M.ATOM_TAGS:
             key = (ln[0:6], ln[17:27])
             if key != last:
-                units.append([])
+                units.append(['A', []])
                 last = key
-            units[-1].append(ln)
+            units[-1][1].append(ln)
         else:
-            units.append([ln])
+            units.append(['L', [ln]])
             last = None
 
-    def rebuild_res(us):
-        return ''.join(l + '\n' for u in us for l in u)
-    units = ddmin(units, rebuild_res)
-    atoms = [l for u in units for l in u]
-    atoms = ddmin(atoms, lambda ls: ''.join(l + '\n' for l in ls))
+    def rebuild(removable_kept, all_units):
+        keep = set(id(u) for u in removable_kept)
+        return ''.join(l + '\n' for u in all_units if u[0] == 'L' or id(u) in keep for l in u[1])
+    removable = [u for u in units if u[0] == 'A']
+    removable = ddmin(removable, lambda us: rebuild(us, units))
+    # now single records inside the surviving residues
+    flat = []
+    for u in units:
+        if u[0] == 'L':
+            flat.append(['L', u[1]])
+        elif any(u is r for r in removable):
+            for ln in u[1]:
+                flat.append(['A', [ln]])
+    recs_ = [u for u in flat if u[0] == 'A']
+    recs_ = ddmin(recs_, lambda us: rebuild(us, flat))
+    keep = set(id(u) for u in recs_)
+    atoms = [l for u in flat if u[0] == 'L' or id(u) in keep for l in u[1]]
     out = ''.join(l + '\n' for l in atoms)
     log('minimised to %d lines in %d tests' % (len(atoms), tests[0]))
     return out, tests[0]
@@ -443,7 +459,7 @@ def main(argv=None):
             keep, lost = M.apply_fault(recs, fault)
             text = M.render(recs, keep)
             cen = M.census(recs, cfg) if fobj.get('census') else []
-            pairs = [[lab, recs[idx][1]] for lab, idx in cen
+            pairs = [[lab, recs[idx][1], [recs[d][1] for d in deps]] for lab, idx, deps in cen
                      if lab not in set(fobj.get('census_exclude') or [])]
             # confirm in a fresh process before reporting
             conf = literal_failure(text, fobj['stem'], f['delivery'], f['options'], pairs, sc,
